@@ -195,6 +195,27 @@ unsafe fn check_cstr(g: &(*mut c_char, Vec<u8>, String), mism: &mut Vec<String>)
 
 static LAST_PANIC: Mutex<Option<String>> = Mutex::new(None);
 
+// Watchdog: a step of a scenario normally takes milliseconds. A step that does not return within STEP_LIMIT_MS (an endless loop in the
+// library) ends the process with a message, so that the caller sees "did not return" after seconds, not after its own long timeout.
+static HEARTBEAT: std::sync::atomic::AtomicU64 = std::sync::atomic::AtomicU64::new(0);
+const STEP_LIMIT_MS: u64 = 20_000;
+
+fn now_ms() -> u64 {
+    std::time::SystemTime::now().duration_since(std::time::UNIX_EPOCH).map(|d| d.as_millis() as u64).unwrap_or(0)
+}
+
+fn start_watchdog() {
+    HEARTBEAT.store(now_ms(), std::sync::atomic::Ordering::SeqCst);
+    std::thread::spawn(|| loop {
+        std::thread::sleep(std::time::Duration::from_millis(500));
+        let last = HEARTBEAT.load(std::sync::atomic::Ordering::SeqCst);
+        if last != 0 && now_ms().saturating_sub(last) > STEP_LIMIT_MS {
+            eprintln!("WATCHDOG: a step did not return within {} ms (endless loop?)", STEP_LIMIT_MS);
+            std::process::abort();
+        }
+    });
+}
+
 fn take_panic() -> String {
     LAST_PANIC
         .lock()
@@ -323,6 +344,7 @@ fn render(s: &Suggestion) -> Value {
 }
 
 fn run_scenario(sc: &Value) -> Value {
+    HEARTBEAT.store(now_ms(), std::sync::atomic::Ordering::SeqCst);
     let id = sc.get("id").cloned().unwrap_or(Value::Null);
     let xdg = match sc.get("xdg").and_then(|x| x.as_str()) {
         Some(x) => x.to_string(),
@@ -339,6 +361,7 @@ fn run_scenario(sc: &Value) -> Value {
     let empty = Vec::new();
     let steps = sc.get("steps").and_then(|x| x.as_array()).unwrap_or(&empty);
     for st in steps {
+        HEARTBEAT.store(now_ms(), std::sync::atomic::Ordering::SeqCst);
         let op = st.get("op").and_then(|x| x.as_str()).unwrap_or("");
         let cid = st.get("ctx").and_then(|x| x.as_i64()).unwrap_or(0);
         let mut r = Map::new();
@@ -675,6 +698,7 @@ fn main() {
             *g = Some(format!("{} @ {}", msg, loc));
         }
     }));
+    start_watchdog();
     let args: Vec<String> = std::env::args().collect();
     let input: Box<dyn BufRead> = if args.len() > 1 {
         Box::new(std::io::BufReader::new(std::fs::File::open(&args[1]).expect("open scenario file")))
